@@ -7,6 +7,7 @@ import (
 	"go/constant"
 	"go/types"
 	"math/big"
+	"regexp"
 	"strconv"
 	"strings"
 
@@ -25,6 +26,7 @@ type CEnv struct {
 	pre      *CEnv
 	iter     *CEnv
 	bound    map[string]Term // quantifier-bound variables (visible inside old/pre/iter too)
+	side     *[]string       // range facts of the integer cells selected while evaluating (true of every real slice)
 }
 
 func (w *World) newEnv(pkg *packages.Package) *CEnv {
@@ -33,7 +35,7 @@ func (w *World) newEnv(pkg *packages.Package) *CEnv {
 }
 
 func (e *CEnv) child() *CEnv {
-	c := &CEnv{w: e.w, pkg: e.pkg, vars: map[string]Term{}, old: e.old, depth: e.depth, nq: e.nq, lookup: e.lookup, pre: e.pre, iter: e.iter, globalOf: e.globalOf, bound: map[string]Term{}}
+	c := &CEnv{w: e.w, pkg: e.pkg, vars: map[string]Term{}, old: e.old, depth: e.depth, nq: e.nq, lookup: e.lookup, pre: e.pre, iter: e.iter, globalOf: e.globalOf, bound: map[string]Term{}, side: e.side}
 	for k, v := range e.bound {
 		c.bound[k] = v
 	}
@@ -209,9 +211,13 @@ func (e *CEnv) eval(x CExpr) Term {
 		switch u := v.T.Underlying().(type) {
 		case *types.Slice:
 			_, arr, off, _, _ := e.reg().sliceParts(v)
-			return Term{S: "(select " + arr + " (+ " + off + " " + i.S + "))", T: u.Elem()}
+			r := Term{S: "(select " + arr + " (+ " + off + " " + i.S + "))", T: u.Elem()}
+			e.noteCell(r)
+			return r
 		case *types.Array:
-			return Term{S: "(select " + v.S + " " + i.S + ")", T: u.Elem()}
+			r := Term{S: "(select " + v.S + " " + i.S + ")", T: u.Elem()}
+			e.noteCell(r)
+			return r
 		case *types.Map:
 			s := e.reg().SortOf(v.T)
 			return Term{S: "(select (val_" + s + " " + v.S + ") " + i.S + ")", T: u.Elem()}
@@ -461,6 +467,24 @@ func (e *CEnv) call(n *CCall) Term {
 		case "jspush":
 			j := e.eval(n.Args[0])
 			return Term{S: "(js_push " + j.S + " " + e.eval(n.Args[1]).S + " " + e.eval(n.Args[2]).S + ")", T: j.T}
+		case "mkstruct": // mkstruct(TypeName, field values in declaration order)
+			t, err := e.w.resolveType(cexprString(n.Args[0]), e.pkg)
+			if err != nil {
+				cfail("%v", err)
+			}
+			si := e.reg().StructInfo(t)
+			if si == nil || len(si.Fields) != len(n.Args)-1 {
+				cfail("mkstruct(%s): wrong number of field values", cexprString(n.Args[0]))
+			}
+			var fs []string
+			for _, a := range n.Args[1:] {
+				fs = append(fs, e.eval(a).S)
+			}
+			return Term{S: "(" + si.Ctor + " " + strings.Join(fs, " ") + ")", T: t}
+		case "strof": // strof(b): the string conversion string(b) of a byte slice
+			b := e.autoDeref(e.eval(n.Args[0]))
+			e.w.declareUninterp(&Uninterp{Name: "str_of_bytes", Params: []ParamDecl{{"b", types.NewSlice(types.Typ[types.Uint8])}}, Result: types.Typ[types.String]})
+			return Term{S: "(u_str_of_bytes " + b.S + ")", T: types.Typ[types.String]}
 		case "strcat":
 			a, b := e.eval(n.Args[0]), e.eval(n.Args[1])
 			e.w.declareUninterp(&Uninterp{Name: "strcat", Params: []ParamDecl{{"a", types.Typ[types.String]}, {"b", types.Typ[types.String]}}, Result: types.Typ[types.String]})
@@ -536,7 +560,7 @@ plain:
 		if e.depth > 40 {
 			cfail("macro recursion in %s", name)
 		}
-		c := &CEnv{w: e.w, pkg: m.Pkg, vars: map[string]Term{}, old: nil, depth: e.depth + 1, nq: e.nq, globalOf: e.globalOf, lookup: e.globalsOnly()}
+		c := &CEnv{w: e.w, pkg: m.Pkg, vars: map[string]Term{}, old: nil, depth: e.depth + 1, nq: e.nq, globalOf: e.globalOf, lookup: e.globalsOnly(), side: e.side}
 		if c.pkg == nil {
 			c.pkg = e.pkg
 		}
@@ -657,4 +681,20 @@ func (e *CEnv) withBound(o *CEnv) *CEnv {
 		c.bound[k] = v
 	}
 	return c
+}
+
+var boundVarRe = regexp.MustCompile(`\bq\d+_`)
+
+// noteCell records the range fact of a selected integer cell (unless it mentions a bound variable).
+func (e *CEnv) noteCell(t Term) {
+	if e.side == nil || !isInteger(t.T) {
+		return
+	}
+	if _, _, _, _, ok := intRange(t.T); !ok {
+		return
+	}
+	if boundVarRe.MatchString(t.S) {
+		return
+	}
+	*e.side = append(*e.side, e.reg().rangeFact(t, 0))
 }
